@@ -17,7 +17,9 @@ INLINE_METHODS = {
 }
 NO_INLINE = {"execute_with_timeout", "resolve_task", "verify_task_outputs", "run_stage_finalizers", "_invoke_task_cleanup", "set_event_context", "current_time_millis", "get_backoff_period", "_get_backoff_period"}
 
-PASS_DECORATORS = {"DEADLOCK_RETRY_POLICY", "ERROR_HANDLING_RETRY_POLICY", "retry_policy"}
+PASS_DECORATORS = {"DEADLOCK_RETRY_POLICY", "ERROR_HANDLING_RETRY_POLICY"}
+# a local name used as decorator passes through when it was built by one of these (retry wrappers: call the function, possibly again)
+PASS_DECORATOR_FACTORIES = {"RetryWithBackoffPolicy"}
 
 # attribute name -> service kind, on `self`-like objects
 SELF_SERVICES = {
